@@ -15,9 +15,10 @@ THEOREMS = ['Fsic.C08.' + n for n in [
     'evalSubs_logged_fst', 'evalSubs_logged_events', 'linker_iteration_shape', 'unselected_not_evaluated',
     'resetAll_keyError', 'unknown_id_keyerror', 'linker_offset_seeds', 'linker_offset_oob', 'lSolveT_eq_finish',
     'linker_converges', 'linker_fails', 'stampSubs_selected', 'stampSubs_unselected', 'evalSubs_counts',
-    'lags_leads_max', 'span_mismatch_rejected', 'single_model_linker_eq_model', 'single_model_linker_eq_model_all', 'lfinish_vs_finish', 'linker_outcome_exists',
+    'lags_leads_max', 'span_mismatch_rejected', 'single_model_linker_eq_model', 'single_model_linker_eq_model_all', 'lfinish_vs_finish', 'linker_agreement',
+    'linker_never_skipped_or_error', 'linker_outcome_exists',
     'linker_history_irrelevant', 'linkerPass_counts', 'linker_counts_after', 'resetAll_zero', 'stampSubs_iter',
-    'linker_converged_submodels']] + ['Fsic.lSolveT_eq_outcome']
+    'linker_converged_submodels']] + ['Fsic.lSolveT_eq_outcome', 'Fsic.lOutcome_agrees', 'Fsic.loop_bound_finite']
 RULE = ('scripted linkers over 0..4 scripted submodels (each with its own per-pass script and check subset) with scripted '
         'linker hooks (own variables, exceptions, cross-links copying a cell from one submodel to another), all '
         'selections: None, every subset in every order, duplicates, unknown ids; min_iter/max_iter/tol/failures lattice, '
